@@ -296,6 +296,9 @@ pub struct SessSpec {
     pub toi_init: Option<String>,
     pub groups: Option<Vec<String>>,
     pub rfc3926: bool,
+    /// transport session identifier (0 in old replay files = the default TSI)
+    #[serde(default)]
+    pub tsi: u64,
 }
 
 impl SessSpec {
@@ -314,6 +317,7 @@ impl SessSpec {
             toi_init: Some("1".into()),
             groups: None,
             rfc3926: false,
+            tsi: TSI,
         }
     }
     pub fn config(&self) -> Config {
@@ -348,7 +352,7 @@ impl SessSpec {
     }
     pub fn sender(&self) -> Result<Sender, String> {
         let oti = self.oti.oti()?;
-        Ok(Sender::new(endpoint(), TSI, &oti, &self.config()))
+        Ok(Sender::new(endpoint(), if self.tsi == 0 { TSI } else { self.tsi }, &oti, &self.config()))
     }
 }
 
